@@ -64,6 +64,11 @@ func render(f string, imports []string, extraImport string, marker string) []byt
 	var sb strings.Builder
 	sb.WriteString("syntax = \"proto3\";\npackage " + pkgOf[f] + ";\n")
 	for _, g := range imports {
+		if f == "b1" {
+			// (the imports of b1 are weak imports: a weak import is an import like any other for what a module depends on)
+			sb.WriteString("import weak \"" + pathOf[g] + "\";\n")
+			continue
+		}
 		sb.WriteString("import \"" + pathOf[g] + "\";\n")
 	}
 	if extraImport != "" {
